@@ -350,7 +350,7 @@ class TableToId(sqlbuilder.SQLExpression):
     def __sqlrepr__(self, db):
         return '%s.%s = %s' % (
             self.alias if self.alias else self.table,
-            self.idName, self.idValue)
+            self.idName, sqlbuilder.sqlrepr(self.idValue, db))
 
 
 class SQLJoinSelectResults(sresults.SelectResults):
